@@ -281,6 +281,10 @@ impl Table for DisplacedTable {
     fn clear(&mut self) {
         self.uf.reset();
         self.displaced.clear();
+        // `lookup_table` maps displaced ids to offsets into `displaced`: it must be emptied with
+        // it, and writes staged before the clear must not resurface at the next merge.
+        self.lookup_table.clear();
+        while self.buffered_writes.pop().is_some() {}
     }
 
     fn all(&self) -> Subset {
